@@ -14,8 +14,8 @@ PROPS["C06"] = {
     "title": "Three-valued connectives obey their truth tables",
     "models": lambda tier: [
         {"module": "MC_Tri",
-         "constants": {"MaxK": q(tier, 3, 5), "Dev": DEV_CURRENT},
-         "invariants": ["EngInAdm", "LangIsAdm", "Lifted", "Emit"],
+         "constants": {"MaxK": q(tier, 3, 5), "Dev": DEV_CURRENT, "EmitAlts": "FALSE"},
+         "invariants": ["EngInAdm", "LangIsAdm", "Lifted", "OrderFree", "LangOrderFree", "Emit"],
          "forms": ["and_chain", "or_chain", "map_group", "seq_group", "not1", "all_seq", "of_seq",
                    "all_map", "of_map", "klist", "kall", "kof", "klist_mix", "kall_mix", "kof_mix", "knot"],
          "workers": q(tier, 4, 8)},
@@ -166,6 +166,41 @@ PROPS["C08"] = {
     "rules": ["oracle", "den", "alt_fails", "load_outcome", "match_panic"],
     "chunk": 500,
 }
+
+PROPS["C17"] = {
+    "title": "Order of operands never decides whether and/or is true",
+    "models": lambda tier: [
+        {"module": "MC_Tri",
+         "constants": {"MaxK": q(tier, 3, 4), "Dev": DEV_CURRENT, "EmitAlts": "TRUE"},
+         "invariants": ["OrderFree", "LangOrderFree", "Emit"],
+         "forms": ["and_chain", "or_chain", "map_group", "seq_group", "all_seq", "of_seq", "klist", "kall", "kof"],
+         "workers": q(tier, 4, 8)},
+    ],
+    "gens": lambda tier: [{"topic": "perm", "n": q(tier, 600, 12000)}],
+    "rules": ["den", "alt_fails", "match_panic"],
+    "chunk": 500,
+}
+
+PROPS["C16"] = {
+    "title": "Matching reads only the fields the rule names",
+    "models": lambda tier: [],
+    "gens": lambda tier: [{"topic": "find", "n": q(tier, 300, 6000)}],
+    "rules": ["find_key", "den", "match_panic"],
+    "chunk": 150,
+}
+
+PROPS["C15"] = {
+    "title": "ignore_case build equals default build with every pattern i-prefixed",
+    "needs_ic": True,
+    "models": lambda tier: [
+        {"module": "MC_Ident", "constants": {"MaxLen": q(tier, 3, 4), "Dev": "{}", "IcBuild": "TRUE"},
+         "invariants": ["NoPanic", "WriteRead"], "no_cases": True, "workers": 8},
+    ],
+    "gens": lambda tier: [{"topic": "ic+lang", "n": q(tier, 500, 10000)}, {"topic": "ic+str", "n": q(tier, 300, 6000)}],
+    "rules": ["den", "oracle", "ic_load_differs", "load_panic", "match_panic"],
+    "chunk": 400,
+}
+
 
 # ------------------------------------------------------------------------------------------
 # texts for MANIFEST.json
